@@ -594,6 +594,10 @@ pub fn build(full_name: &str, level: u8) -> Option<Scenario> {
             if n.contains("-lazy") || n.contains("-batch") {
                 s.inputs_per_ready = 2;
             }
+            if n.contains("-lazy3") {
+                // up to three inputs before a Ready round: e.g. two appends and a late duplicate
+                s.inputs_per_ready = 3;
+            }
             if n.contains("-gc") {
                 s.group_commit = true;
                 s.nodes[0].group_id = 1;
@@ -746,6 +750,14 @@ pub fn build(full_name: &str, level: u8) -> Option<Scenario> {
                         c.props = 3;
                         c.drops = 0;
                     }
+                }
+                if n.contains("-lazy3") {
+                    c.props = 2;
+                    c.beats = 0;
+                    c.dups = 1;
+                    c.reorders = 0;
+                    c.drops = 0;
+                    c.lazy = 2;
                 }
                 if n.contains("-grown") {
                     c.props = 4;
